@@ -81,7 +81,12 @@ class Run:
     __slots__ = ("argv", "cmdline", "rc", "out", "err", "timed_out", "wall")
 
     def panicked(self):
-        return self.rc == 101 or "panicked at" in self.err
+        """A panic of the process: exit status 101, or an abort/non-zero status with the main thread's panic message.
+        (A 'panicked at' line from a *worker* thread while the process exits with an ordinary error status is a
+        side effect of that error and is not counted as a panic of the tool.)"""
+        if self.rc == 101:
+            return True
+        return self.rc not in (0, None) and "thread 'main'" in self.err and "panicked at" in self.err
 
     def brief(self):
         return dict(cmd=self.cmdline, rc=self.rc, timed_out=self.timed_out, stderr=self.err[:600])
